@@ -147,8 +147,14 @@ class Runner:
         elif k == 'passi':
             # passi <i> <point> <src>: i's outgoing pass with the incoming handler of i delivering the next message
             # from <src> at the given atomic-step boundary (point = lock | send:<peer>)
+            # <src> may also be a list of whole operations `op_arg_arg;op_arg` run at that boundary (e.g. the peer
+            # crashes, restarts and announces itself while the send is in progress)
             if c.insts[w[1]].alive:
-                c.insts[w[1]].outgoing_pass({w[2]: (lambda: c.deliver(w[3], w[1]))})
+                if ';' in w[3] or '_' in w[3]:
+                    inner = [o.replace('_', ' ') for o in w[3].split(';')]
+                    c.insts[w[1]].outgoing_pass({w[2]: (lambda: [self.do(o) for o in inner])})
+                else:
+                    c.insts[w[1]].outgoing_pass({w[2]: (lambda: c.deliver(w[3], w[1]))})
         elif k == 'del':
             c.deliver(w[1], w[2])
         elif k == 'dup':
